@@ -305,14 +305,19 @@ func runC41(c *fw.Ctx) {
 	// full alphabet (DESIGN's 16 symbols plus '>' and '#') and a reduced one for depth
 	sigmaFull := []string{"'", "!", "\\", "\"", "$", "`", " ", "\n", ";", "|", "&", "(", "a", "-", "~", "*", ">", "#"}
 	sigmaDeep := []string{"'", "\\", "!", " ", "\n", "a"}
+	// bytes a rune-wise or "printable only" rewrite would mangle, next to the specials
+	sigmaBytes := []string{"'", "!", "\xe9", "\xc3", "\xa9", "\xff", "\t", "\r", "\x01", "\x7f", "a", ";"}
 	lenFull := c.Pick(4, 5)
 	lenDeep := c.Pick(5, 7)
+	lenBytes := c.Pick(3, 4)
 	lenFaithful := c.Pick(2, 3) // additionally run one `sh -c` per case with external stubs
 	confLen := c.Pick(5, 6)
 	c.Bound("alphabet_full", sigmaFull)
 	c.Bound("alphabet_deep", sigmaDeep)
 	c.Bound("max_symbols_full_alphabet", lenFull)
 	c.Bound("max_symbols_deep_alphabet", lenDeep)
+	c.Bound("alphabet_bytes", sigmaBytes)
+	c.Bound("max_symbols_bytes_alphabet", lenBytes)
 	c.Bound("max_symbols_one_process_per_case", lenFaithful)
 	c.Bound("model_conformance_raw_len", confLen)
 	c.Bound("words", "path + 0..2 args (the word separator is an extra symbol of the enumeration)")
@@ -617,9 +622,163 @@ func runC41(c *fw.Ctx) {
 			reported++
 		}
 	}
-	space(sigmaFull, lenFull, -1)
-	space(sigmaDeep, lenDeep, -1)
-	space(sigmaFull, -1, lenFaithful) // one `sh -c` per case and shell: last, it is the slow part
+	onlyNew := os.Getenv("S13_ONLY_NEW") != "" // development aid: skip the unchanged spaces
+	if !onlyNew {
+		space(sigmaFull, lenFull, -1)
+		space(sigmaDeep, lenDeep, -1)
+	}
+	space(sigmaBytes, lenBytes, -1)
+
+	// Structured spaces (explicit case lists): runs of adjacent specials followed
+	// by shell syntax at every word position, every byte value in pairs, long
+	// words around buffer sizes, more than two arguments.
+	list := func(name string, cases []c41Listed, faithfulAll bool) {
+		n := len(cases)
+		var bmu sync.Mutex
+		badIdx := map[int]bool{}
+		// chunks of at most `chunk` cases and ~256 KiB of words (argv limit)
+		var cuts []int
+		for i, sz := 0, 0; i < n; i++ {
+			w := len(cases[i].path) + 64
+			for _, a := range cases[i].args {
+				w += len(a)
+			}
+			if len(cuts) == 0 || i-cuts[len(cuts)-1] >= chunk || sz+w > 256<<10 {
+				cuts = append(cuts, i)
+				sz = 0
+			}
+			sz += w
+		}
+		cuts = append(cuts, n)
+		c.ParDo(len(cuts)-1, 0, func(ci int) {
+			lo0, hi0 := cuts[ci], cuts[ci+1]
+			var idx []int
+			var cmds []string
+			var wants [][]string
+			var located []int
+			for i := lo0; i < hi0; i++ {
+				cs := cases[i]
+				service := c41Services[i%len(c41Services)]
+				c.Eval()
+				c.States(1)
+				c.Transitions(1)
+				if cl, nt := classOf(cs.path, cs.args, name+":"+cs.class); nt {
+					c.Class(cl)
+				}
+				if i%997 == 5 && len(cs.path) < 200 {
+					c.Sample(map[string]any{"space": name, "service": service, "path": cs.path, "args": cs.args})
+				}
+				cmd, pv := c41Build(service, cs.path, cs.args)
+				if pv != nil {
+					located = append(located, i)
+					continue
+				}
+				want := expected(service, cs.path, cs.args)
+				if w, mok := shWords(cmd); !(mok && eqStrs(w, want)) {
+					cmu.Lock()
+					conservative++
+					cmu.Unlock()
+				}
+				idx = append(idx, i)
+				cmds = append(cmds, cmd)
+				wants = append(wants, want)
+			}
+			clean := func(lo, hi int) bool {
+				for _, sh := range shells {
+					if !env.batchGood(sh, cmds[lo:hi], wants[lo:hi]) {
+						return false
+					}
+				}
+				return true
+			}
+			var bisect func(lo, hi int)
+			bisect = func(lo, hi int) {
+				if lo >= hi || len(located) >= maxBadPerChunk {
+					return
+				}
+				if clean(lo, hi) {
+					c.TracesValidated(len(shells) * (hi - lo))
+					return
+				}
+				if hi-lo == 1 {
+					located = append(located, idx[lo])
+					return
+				}
+				mid := (lo + hi) / 2
+				bisect(lo, mid)
+				bisect(mid, hi)
+			}
+			bisect(0, len(cmds))
+			bmu.Lock()
+			for _, i := range located {
+				badIdx[i] = true
+			}
+			bmu.Unlock()
+		})
+		// the faithful evaluation: one `sh -c` per case and shell
+		var fa []int
+		for i, cs := range cases {
+			if faithfulAll || cs.faithful {
+				fa = append(fa, i)
+			}
+		}
+		c.ParDo(len(fa), 0, func(j int) {
+			i := fa[j]
+			v := judge(c41Services[i%len(c41Services)], cases[i].path, cases[i].args)
+			c.Transitions(1)
+			if len(v.bad) > 0 {
+				bmu.Lock()
+				badIdx[i] = true
+				bmu.Unlock()
+			} else {
+				c.TracesValidated(len(shells))
+			}
+		})
+		batchBad += len(badIdx)
+		var order []int
+		for i := range badIdx {
+			order = append(order, i)
+		}
+		sort.Ints(order) // the lists are generated simplest first
+		reported := 0
+		for _, i := range order {
+			if reported >= 12 {
+				break
+			}
+			service := c41Services[i%len(c41Services)]
+			v := judge(service, cases[i].path, cases[i].args)
+			if len(v.bad) == 0 {
+				batchBadButFine++
+				continue
+			}
+			p, ar := cases[i].path, cases[i].args
+			if len(p) > 64 {
+				p = fmt.Sprintf("%s...(%d bytes)", p[:16], len(p))
+			}
+			key := fmt.Sprintf("%s: path=%s args=%s fails-in=%s", name, fw.Q(p), fw.Q(strings.Join(ar, "\x1f")), strings.Join(v.bad, "+"))
+			cmdShown := v.cmd
+			if len(cmdShown) > 400 {
+				cmdShown = cmdShown[:400] + "..."
+			}
+			c.Fail(key, fmt.Sprintf("command line %s does not evaluate to exactly [%s, path, args]", fw.Q(cmdShown), service),
+				map[string]any{"space": name, "service": service, "path": p, "args": ar, "command": cmdShown, "bad_in": v.bad, "panic": fmt.Sprint(v.panicv),
+					"bad_cases_located_in_this_space": len(badIdx)})
+			reported++
+		}
+	}
+	runsCases := c41RunsCases(c.Thorough())
+	c.Bound("runs_space", fmt.Sprintf("%d cases: word = pre{'',a} + run over {',!} of 1..3 + tail (%d shell-syntax snippets) + post{'',',!,''}; as path, as 1st arg, as 2nd arg after an empty arg, and split across the path/arg boundary; `sh -c` per case for runs of <=2 as bare path and runs of 1 as bare argument, each with every tail (thorough: all)", len(runsCases), len(c41Tails)))
+	list("runs", runsCases, c.Thorough())
+	byteCases := c41ByteCases()
+	c.Bound("byte_pairs_space", fmt.Sprintf("%d cases: every pair of non-NUL byte values as path; every single byte as path, as argument, and between/after quote characters", len(byteCases)))
+	list("bytes", byteCases, false)
+	miscCases := c41MiscCases()
+	c.Bound("long_and_many_args_space", fmt.Sprintf("%d cases: words of 4095..65537 bytes with specials at the ends and around 4096/8192/32768/65536, runs of 1000..10000 specials (`sh -c` per case too), 3..6 arguments", len(miscCases)))
+	list("misc", miscCases, c.Thorough())
+
+	if !onlyNew {
+		space(sigmaFull, -1, lenFaithful) // one `sh -c` per case and shell: last, it is the slow part
+	}
 	c.Extra("cases_where_the_tokenizer_model_made_no_claim", conservative)
 	c.Extra("cases_bad_in_the_batch_filter", batchBad)
 	c.Extra("cases_unexamined_in_dirty_chunks", unexamined)
